@@ -7,7 +7,7 @@ META = {
     "id": "C05",
     "level": "exploration",
     "technique": "TLA+ spec SumRules: cell domain (unpolarised / polarised x perturbative order x fixed-flavour up / down, variable-flavour up / down across the bottom matching scale, one QED cell) and the required tolerance class, enumerated and validated by TLC (SumRulesTrace, with a coverage record); measurements on the real solver with REAL quadrature: the stored x-space operator on a 24-point Lambert grid on [1e-4, 1] (degree 3) is contracted with a smooth random toy input and moments are taken with the integrals of the library's own interpolation basis (Gauss-Legendre in ln x per grid interval); relative violations sent to TLC as decades",
-    "text": "Unpolarised: total momentum (all quarks, antiquarks, gluon, photon with QED) and the valence number of every quark flavour before and after the operator; polarised: first moments of T3 and T8. TLC requires every violation to be at most 1e-2, the tolerance of the statement (clean tree: momentum <= 1.5e-3, numbers <= 4e-4). A sum rule broken at the perturbative level - a wrong entry or normalisation in an anomalous dimension or matching element, a flavour lost or doubled in a basis rotation - shows as several per cent to O(1). The toy input carries a sizeable bottom content (about a sixth of the momentum, intrinsic where bottom is not active). Quick: 6 cells (LO fixed-flavour, NLO across the matching scale up and down, polarised LO and NLO, a five-flavour LO segment with QED); thorough: both kinds x LO/NLO/NNLO x 4 shapes, two QED cells and the five-flavour segment at LO/NLO (28 cells).",
+    "text": "Unpolarised: total momentum (all quarks, antiquarks, gluon, photon with QED) and the valence number of every quark flavour before and after the operator; polarised: first moments of T3 and T8. TLC requires every violation to be at most 1e-2, the tolerance of the statement (clean tree: momentum <= 1.5e-3, numbers <= 4e-4). A sum rule broken at the perturbative level - a wrong entry or normalisation in an anomalous dimension or matching element, a flavour lost or doubled in a basis rotation - shows as several per cent to O(1). The toy input carries a sizeable bottom content (about a sixth of the momentum, intrinsic where bottom is not active). Quick: 7 cells (LO fixed-flavour, NLO across the bottom matching scale up and down, polarised LO and NLO, a five-flavour LO segment with QED, LO downwards through the charm matching scale into nf = 3); thorough: both kinds x LO/NLO/NNLO x 4 shapes, two QED cells, the five-flavour segment and the charm crossing at LO/NLO (30 cells).",
     "note": "Decided as a tolerance class with a margin of a factor 7, not as an accuracy study. The toy input is built so that what lies below the grid is negligible for the moments taken (valence-like parts vanish like x^0.5, sea and gluon rise at most like x^-0.2); scales jittered by +-3%. iterate-exact with 4 iterations, exact inversion of the backward matching. Level exploration.",
     "design_ref": "6 (planned as not applicable), 11.3",
     "rule": "cell = (kind, order, QED order, shape); one seeded toy input and jitter per cell and run; non-trivial = solved",
@@ -18,11 +18,12 @@ def _cells(thorough):
     if not thorough:
         return [dict(kind="unpolarized", order=1, qed=0, shape="ffns-up"), dict(kind="unpolarized", order=2, qed=0, shape="vfns-up"),
                 dict(kind="unpolarized", order=2, qed=0, shape="vfns-down"), dict(kind="polarized", order=1, qed=0, shape="ffns-down"),
-                dict(kind="polarized", order=2, qed=0, shape="vfns-up"), dict(kind="unpolarized", order=1, qed=1, shape="ffns5-up")]
+                dict(kind="polarized", order=2, qed=0, shape="vfns-up"), dict(kind="unpolarized", order=1, qed=1, shape="ffns5-up"),
+                dict(kind="unpolarized", order=1, qed=0, shape="vfns-down-charm")]
     cells = [dict(kind=k, order=o, qed=0, shape=s) for k in ("unpolarized", "polarized") for o in (1, 2, 3)
              for s in ("ffns-up", "ffns-down", "vfns-up", "vfns-down")]
     return cells + [dict(kind="unpolarized", order=1, qed=1, shape=s) for s in ("ffns-up", "ffns5-up")] + [
-        dict(kind="unpolarized", order=o, qed=0, shape="ffns5-up") for o in (1, 2)]
+        dict(kind="unpolarized", order=o, qed=0, shape=s) for o in (1, 2) for s in ("ffns5-up", "vfns-down-charm")]
 
 
 def run(chk):
